@@ -737,6 +737,15 @@ def _work_fields(job):
     fprob, rprob = [], []
     pieces = replays = 0
     dom_bad = None
+    dirty = None
+    for c in r.cells:
+        if c.status == "ok" and dirty is None:
+            for ev in c.events:
+                if ev[0] == "bits" and isinstance(ev[1], AI) and isinstance(ev[2], AI) and ev[2].const() is not None:
+                    wv = ev[2].const()
+                    if ev[1].lo < 0 or (wv < 64 and ev[1].hi >= (1 << wv)):
+                        dirty = "for the cell [%d, %d] write_bits(%r, %d) may carry bits at or above its width" % (c.y0, c.y1, ev[1], wv)
+                        break
     for c in r.cells:
         if c.status != "ok":
             if c.y1 <= hi - (1 if hi == U64MAX else 0) or inp != (1, 0):
@@ -758,7 +767,7 @@ def _work_fields(job):
                 rprob.append(p)
             else:
                 replays += 1
-    return key, {"cells": len(r.cells), "raw_cells": raw, "pieces": pieces, "replays": replays, "field_problems": fprob[:2], "reader_problems": rprob[:2], "domain": dom_bad,
+    return key, {"dirty": dirty, "cells": len(r.cells), "raw_cells": raw, "pieces": pieces, "replays": replays, "field_problems": fprob[:2], "reader_problems": rprob[:2], "domain": dom_bad,
                  "sample": [fmt_ev(e) for e in r.cells[min(3, len(r.cells) - 1)].events] if r.cells else []}
 
 
@@ -998,7 +1007,7 @@ def semantic_len(F, body, is_closure, fam, param):
 
 
 # ---- exact fields of one code over its whole parameter range (fallback when a shape rule does not recognise a writer) -----------
-def fields_all_params(F, fs, code):
+def fields_all_params(F, fs, code, what="fields"):
     """-> (ok, text): D3-style exact comparison of the code's writer with the documented fields for every value, both
     endiannesses, over the full parameter range (as far as the residue-class method reaches)"""
     import multiprocessing as mp
@@ -1013,6 +1022,7 @@ def fields_all_params(F, fs, code):
         for b in list(range(1, 65)) + [100, 127, 128, 129, 1000]:
             r = _gcache[(fs, b)]
             probs += [p for p in r["problems"] if "documented" in p or "evaluated" in p or "internal" in p or "fails" in p]
+        # Golomb's fixed-width fields are the constants of the documented minimal binary code (compared exactly above): clean
         return (not probs), ("; ".join(probs[:2]) or "exact fields verified for b in 1..=64 and 100, 127..129, 1000")
     for e, en in ((BE, "be"), (LE, "le")):
         if code in ("gamma", "delta"):
@@ -1039,9 +1049,12 @@ def fields_all_params(F, fs, code):
         for key, r in pool.imap_unordered(_work_fields, [(fs,) + tuple(c) for c in cfgs], chunksize=2):
             if "unsupported" in r:
                 probs.append("%s: %s" % (key, r["unsupported"]))
+            elif what == "clean":
+                if r["dirty"] or r["domain"]:
+                    probs.append("%s: %s" % (key, r["dirty"] or r["domain"]))
             elif r["field_problems"] or r["domain"] or not r["pieces"]:
                 probs.append("%s: %s" % (key, "; ".join(r["field_problems"]) or r["domain"] or "nothing compared"))
-    return (not probs), ("; ".join(probs[:2]) or "exact fields verified on %d configurations (whole parameter range, both endiannesses)" % len(cfgs))
+    return (not probs), ("; ".join(probs[:2]) or "%s verified on %d configurations (whole parameter range, both endiannesses)" % ("clean operands" if what == "clean" else "exact fields", len(cfgs)))
 
 
 # ---- parameterless value functions: every MIR assert decided on every value (replaces the E3 obligations + lemmas L6, L7) -------
